@@ -494,6 +494,11 @@ def check(ck):
                 for sub in ast.walk(e):
                     if isinstance(sub, ast.List) and len(sub.elts) == 1:
                         exprs.add(dump(sub))
+                        if isinstance(sub.elts[0], ast.Name):
+                            # (a local bound to the value just before: `v = str(obj)` ... `[v]`)
+                            for st_ in ast.walk(fdump.node):
+                                if isinstance(st_, ast.Assign) and any(isinstance(t_, ast.Name) and t_.id == sub.elts[0].id for t_ in st_.targets):
+                                    exprs.add("[%s]" % dump(st_.value))
         if not region:
             ck.bad("C07.5", "%s: %s branch" % (q.fn(fdump), fn_), "no branch for %s objects" % fn_[9:], q.loc(fdump, fdump.node))
             continue
